@@ -113,7 +113,7 @@ def RULE(tier):
         f"reflect_type) x 1-d every (before, after) width in 0..{3 if t else 2} on n<={6 if t else 4}, 2-d {81 if t else 36} asymmetric per-axis width combinations, "
         "3-d two widths; tril/triu for every k; "
         "diff (n 0..3, prepend/append scalar or array); roll by every shift in [-n-1,n+1] per axis, flattened and multi-axis. Shapes: 1-d n<="
-        f"{7 if t else 5}, 2-d up to {'4x4' if t else '3x4'}, 3-d (2,2,2),(1,2,3),(2,3,2), zero-length axes included. Oracle: exact values, dtype, lazy "
+        f"{7 if t else 5}, 2-d up to {'4x4' if t else '3x4'}{', 1-d (12,) for reshape' if t else ''}, 3-d (2,2,2),(1,2,3),(2,3,2), zero-length axes included. Oracle: exact values, dtype, lazy "
         "shape/chunks vs computed blocks. non-trivial = some dask input has >= 2 chunks."
     )
 
@@ -143,12 +143,12 @@ def gen_reshape(tier):
     t = tier == "thorough"
     shapes = [(4,), (6,), (8,), (0,), (2, 3), (3, 2), (2, 2), (1, 4), (4, 1), (2, 4), (3, 4), (0, 2), (2, 0), (2, 2, 2), (1, 2, 3), (2, 3, 2), (2, 1, 3)]
     if t:
-        shapes += [(9,), (10,), (4, 3), (4, 4), (2, 6), (3, 2, 2), (2, 2, 3), (2, 2, 2, 2)]
+        shapes += [(9,), (10,), (12,), (4, 3), (4, 4), (2, 6), (3, 2, 2), (2, 2, 3), (2, 2, 2, 2)]
     for shp in shapes:
         targets = reshape_targets(shp, 4 if t else 3)
         for ch in all_chunkings(shp):
             for tg in targets:
-                for merge in (True, False):
+                for merge in (True, False) if shp != (12,) else (True,):  # (12,): 2048 chunkings, merge_chunks=True only
                     yield ("reshape", shp, ch, tg, merge)
             n = int(np.prod(shp))
             yield ("reshape", shp, ch, n, True)
@@ -496,7 +496,7 @@ def gen_pad(tier):
     w2 = [((a, b), (c, d)) for a in (0, 1, 2) for b in (0, 2) for c in (0, 1) for d in (0, 1, 2)] if not t else [
         ((a, b), (c, d)) for a in (0, 1, 2) for b in (0, 1, 2) for c in (0, 1, 2) for d in (0, 1, 2)
     ]
-    for shp in [(2, 3), (3, 2)] + ([(3, 3), (1, 3)] if t else []):
+    for shp in [(2, 3), (3, 2)] + ([(3, 3), (1, 3), (3, 4)] if t else []):
         for ch in all_chunkings(shp):
             for mode, kw in PAD_MODES:
                 if kw and kw[0][0] == "reflect_type" and not t:
